@@ -320,19 +320,20 @@ Definition xoff (dc : Z) (l : list (Z * Z * size)) : Z := zsum (map (fun t => cw
 Lemma columns_sizes_nth (items : col_items) fp dc mw s i w h csz :
   nthz (columns_sizes items fp dc mw s) i = Some (w, h, csz) ->
   exists o isbox ci, nthz items i = Some (o, isbox, ci) /\ fst csz = w /\
-    (1 <= w -> crows ci csz = h) /\
-    (forall r, snd s = Some r -> h = r).
+    (1 <= w -> crows ci csz = h).
 Proof.
   unfold columns_sizes. destruct (snd s) as [maxrow|].
   - rewrite nthz_map. intro H.
     destruct (nthz (combine _ items) i) as [[w0 [[o isbox] ci]]|] eqn:E; [|discriminate].
-    apply nthz_combine_inv in E as [_ E]. cbn [option_map fst] in H. inversion H; subst.
-    exists o, isbox, ci. repeat split; auto. intros r Er. inversion Er. reflexivity.
+    apply nthz_combine_inv in E as [_ E]. cbn [option_map] in H.
+    exists o, isbox, ci. split; [exact E|].
+    destruct (i_box ci || isbox); inversion H; subst; cbn [fst snd crows]; repeat split; auto.
+    intro Hw. assert (E0 : 0 <? w = true) by lia. rewrite E0. reflexivity.
   - rewrite nthz_map. intro H.
     destruct (nthz (combine _ items) i) as [[w0 [[o isbox] ci]]|] eqn:E; [|discriminate].
     apply nthz_combine_inv in E as [_ E]. cbn [option_map] in H.
     exists o, isbox, ci. split; [exact E|].
-    destruct isbox; inversion H; subst; cbn [fst snd crows]; repeat split; auto; try discriminate.
+    destruct isbox; inversion H; subst; cbn [fst snd crows]; repeat split; auto.
     intro Hw. assert (E0 : 0 <? w = true) by lia. rewrite E0. reflexivity.
 Qed.
 
